@@ -9,6 +9,8 @@ import (
 	"path/filepath"
 	"regexp"
 	"runtime"
+	"runtime/debug"
+	"runtime/pprof"
 	"sort"
 	"strconv"
 	"strings"
@@ -20,6 +22,11 @@ import (
 const verifDir = "/verif"
 
 func main() {
+	gogc := 150
+	if v := os.Getenv("VERIF_GOGC"); v != "" {
+		gogc, _ = strconv.Atoi(v)
+	}
+	debug.SetGCPercent(gogc)
 	if len(os.Args) < 2 {
 		fmt.Fprintln(os.Stderr, "usage: ssasmt run|validate|list ...")
 		os.Exit(2)
@@ -139,7 +146,13 @@ func cmdRun(args []string) int {
 	solver := fs.String("solver", "z3", "z3|z3-new|cvc5")
 	timeout := fs.Int("timeout", 0, "per-query timeout ms")
 	repo := fs.String("repo", "/repo", "repository")
+	cpuprof := fs.String("cpuprofile", "", "write cpu profile")
 	fs.Parse(args)
+	if *cpuprof != "" {
+		f, _ := os.Create(*cpuprof)
+		pprof.StartCPUProfile(f)
+		defer pprof.StopCPUProfile()
+	}
 	if os.Getenv("VERIF_TIER") != "" && *tier == "" {
 		*tier = os.Getenv("VERIF_TIER")
 	}
@@ -166,9 +179,9 @@ func cmdRun(args []string) int {
 		}
 	}
 	if *tier == "thorough" {
-		cfg.TimeoutMs, cfg.MaxSteps, cfg.MaxPaths = 60000, 20000000, 2000000
+		cfg.TimeoutMs, cfg.MaxSteps, cfg.MaxPaths, cfg.Budget = 60000, 20000000, 2000000, 40*time.Minute
 	} else {
-		cfg.TimeoutMs, cfg.MaxSteps, cfg.MaxPaths = 10000, 5000000, 200000
+		cfg.TimeoutMs, cfg.MaxSteps, cfg.MaxPaths, cfg.Budget = 10000, 5000000, 200000, 5*time.Minute
 	}
 	if *timeout > 0 {
 		cfg.TimeoutMs = *timeout
